@@ -113,16 +113,16 @@ class Real(object):
 
                 def alarm(*_):
                     raise TimeoutError()
-                old = signal.signal(signal.SIGALRM, alarm)
-                signal.alarm(5)
+                old = signal.signal(signal.SIGPROF, alarm)
+                signal.setitimer(signal.ITIMER_PROF, 5)          # CPU seconds, not wall clock
                 try:
                     a.extend(a); r = ['ok']
                 except TimeoutError:
                     del a[64:]          # the list grew without bound: cut it so that the rest of the report stays small
                     r = ['exc', 'Hang']
                 finally:
-                    signal.alarm(0)
-                    signal.signal(signal.SIGALRM, old)
+                    signal.setitimer(signal.ITIMER_PROF, 0)
+                    signal.signal(signal.SIGPROF, old)
             elif k == 'pop_default':
                 x = a.pop(); r = ['item', self.idof(x)] + to_atoms(str(x))
             elif k == 'remove':
